@@ -214,8 +214,8 @@ def analyse_function(params, body, module_defined, static_chain, is_module=False
                     acc = set()
                     mentioned(f[2], acc)
                     if x in acc:
-                        # the compiler stores intermediate values in the target itself (observation reported
-                        # separately): no claim where the value reads or assigns its own target
+                        # the compiler stores intermediate values in the target itself (recorded finding
+                        # C01-result-rename): no claim here where the value reads or assigns its own target
                         raise Ambiguous("a short-circuit / conditional value that mentions the target of its assignment")
                 if k == "setv" and x in comp_own:
                     raise Ambiguous("setv to a comprehension's own variable")
